@@ -47,14 +47,14 @@ CHECKS = {
  "C04": dict(cat="exploration", tech="concurrent-call property-based testing of the real Requestor (streams x clones x calls) through the real server against a scripted wire-level replier (permuted, duplicated, late and missing replies) and, in part of the cases, a raw requestor forging the client streams' origin tag and request ids; reply = f(request) oracle; a leg with calls on clones after a recovered dead-path outage",
      text="Every call that returns Ok must carry f(its own request) whatever the reply order and however ids collide across streams; never/late answered calls must fail with the timeout error no earlier than the timeout and a late reply must not satisfy a later call; answered calls on long-timeout streams must succeed; after an outage that both ends noticed, the requestor and its clones each get their own reply from a replier answering in reverse order.",
      note="Real runtime and UDP; on 400 ms-timeout streams a prompt reply may lose the race under load, so both outcomes are accepted there. Lateness is event-triggered, not a real-time distribution.", ref="§5 C04"),
- "C12": dict(cat="fault_enumeration", tech="generated outage scripts (cut point x failing attempts x failure mode x repetition) against a scripted fake server, exact reconnect-attempt accounting for the real client library; plus generated dead-path outages (UDP relay black-holed past the QUIC idle timeout) between the real client and the real server",
+ "C12": dict(cat="fault_enumeration", tech="generated outage scripts (cut point x failing attempts x failure mode x repetition) against a scripted fake server, exact reconnect-attempt accounting for the real client library, requestor clones recovering while a sibling's call is in flight; plus generated dead-path outages (UDP relay black-holed past the QUIC idle timeout) between the real client and the real server",
      text="For all four stream kinds the connection is cut at generated points; each outage has a scripted number of failing reconnect attempts (dropped connection or retryable refusal) or a non-retryable answer. The fake server counts registrations: k+1 on recovery with an identical registration frame and working traffic afterwards, exactly max_attempts then too-many-retries, immediate report of an unrecoverable answer; more outages than max_attempts distinguishes per-outage from lifetime budgets. Against the real server, behind a relay that drops everything for 16-19 s, every stream kind (and requestor clones calling concurrently) must work again within 45 s after the path is back.",
      note="Attempt accounting uses the scripted server with connection closes; recovery against the real server uses silent packet loss in both directions (one or two outages per case).", ref="§5 C12"),
 
- "C11": dict(cat="exploration", tech="frame-script property-based testing against a fresh real server with raw wire peers (service probes per accepted stream, post-hoc health probes per topic, process-wide panic hook) plus stateful PBT of the real req/rep router fed with non-message and near-limit frames; half-written first frames; simultaneous first registrations on new topics",
+ "C11": dict(cat="exploration", tech="frame-script property-based testing against a fresh real server with raw wire peers (service probes per accepted stream, post-hoc health probes per topic, process-wide panic hook) plus stateful PBT of the real req/rep router fed with non-message and near-limit frames, also while peers' sinks fail and connections go away; half-written first frames; simultaneous first registrations on new topics",
      text="Generated scripts of stream opens (all eight first-frame kinds, valid/invalid names, topics already used in the other pattern) and mid-stream frames of any kind incl. requests that only fit the wire limit before the routing tag is added; every stream must end up served in its role (verified by an exchange through that very stream) or explicitly refused with an error frame (which the client library reports from open()); no server task may panic and every touched topic must still serve fresh well-behaved peers.",
      note="Authenticated peer, well-formed frames only. 'Ok' precedes adoption by the router, so the harness settles bindings with probe exchanges before relying on their order.", ref="§5 C11"),
- "C17": dict(cat="fault_enumeration", tech="generated stall + registration-queue overflow on one topic of a fresh real server (non-reading subscriber, flooding publishers, b registrations before and n after the stall, n around and above the queue capacity), cross-topic probe with raw peers (fresh connections, the stuck publishers' connection, the connections with queued registrations) and the client library; variant where the stalled client's whole connection is out of flow-control credit; a Client waiting on the stalled topic using another topic; in a child process, draining 1-40000 queued registrations on a 2 MiB stack",
+ "C17": dict(cat="fault_enumeration", tech="generated stall + registration-queue overflow on one topic of a fresh real server (non-reading subscriber, flooding publishers, b registrations before and n after the stall, n around and above the queue capacity, peers sharing a few connections or bringing one each), cross-topic probe with raw peers (fresh connections, the stuck publishers' connection, the connections with queued registrations) and the client library; variant where the stalled client's whole connection is out of flow-control credit; a Client waiting on the stalled topic using another topic; in a child process, draining 1-40000 queued registrations on a 2 MiB stack",
      text="After topic A is provably stalled (its publishers are back-pressured) and more registrations than the router's queue holds are made on it, a publisher/subscriber pair on topic B (raw and through the client library) must still register and exchange a message; a control exchange on B before the stall must have succeeded in the same case.",
      note="One stall mechanism; the violating behaviour is a dead-lock, so the 12 s deadline is not a race.", ref="§5 C17"),
 
